@@ -26,6 +26,12 @@ NAMES = ('x', 'y', 'z')
 F = tt.full(N)
 
 
+# nodes that the libraries keep referenced for good (constants and the
+# projection functions of the variables)
+PERMANENT = {0, F} | {tt.var(N, j) for j in range(N)} | {
+    ~tt.var(N, j) & F for j in range(N)}
+
+
 class NotReached(Exception):
     pass
 
@@ -97,12 +103,24 @@ class Ledger:
 
     def __init__(self, null=None):
         self.count = {}
+        self.released = set()
+        self.use_after_release = False
         self.calls = 0
         self.fail_at = None
         self.null = null
         self.negative = False
 
+    def begin_call(self):
+        """Start of one wrapper-method call: forget which nodes were
+        released earlier."""
+        self.released = set()
+        self.use_after_release = False
+
     def ref(self, n):
+        if n in getattr(self, 'released', ()):
+            # the last reference was given back earlier in this call: the
+            # library may already have freed the node
+            self.use_after_release = True
         self.count[n] = self.count.get(n, 0) + 1
 
     def deref(self, n):
@@ -110,6 +128,8 @@ class Ledger:
         if c < 0:
             self.negative = True
         self.count[n] = c
+        if c == 0 and hasattr(self, 'released') and n not in PERMANENT:
+            self.released.add(n)
 
     def result(self, value):
         self.calls += 1
@@ -159,6 +179,31 @@ def cudd_env(L):
             ren[jy] = jx
         return L.result(tt.rename(u, N, ren))
     e['Cudd_bddSwapVariables'] = _swapvars
+    # DDDMP loader: returns a referenced node (the table is taken from
+    # the "file name")
+    def _dddmp_load(m, *a):
+        r = L.result(int(_dddmp_state['table']))
+        if r is not None:
+            L.ref(r)
+        return r
+    _dddmp_state = dict(table=0)
+    e['_dddmp_state'] = _dddmp_state
+    e['Dddmp_cuddBddLoad'] = _dddmp_load
+
+    class _EncodedName(str):
+        def encode(self):
+            return self
+
+    def _fopen(name, mode):
+        if isinstance(name, bytes):
+            name = name.decode()
+        _dddmp_state['table'] = int(str(name).split('.')[0])
+        return 'FILE'
+    e['fopen'] = _fopen
+    e['fclose'] = lambda f: None
+    for k_ in ('DDDMP_VAR_MATCHNAMES', 'DDDMP_MODE_TEXT', 'DDDMP_VARNAMES',
+               'DDDMP_SUCCESS'):
+        e[k_] = k_
     e['cuddUniqueInter'] = lambda m, j, hi, lo: L.result(
         tt.ite(tt.var(N, j), hi, lo, N))
     e['PyMem_Malloc'] = lambda k: [None] * k
@@ -367,7 +412,7 @@ class Model:
         if name == 'cudd':
             extra = ['ite', 'quantify', 'forall', 'exist', '_cofactor',
                      '_compose', '_unary_compose', '_multi_compose',
-                     '_rename', '_swap', 'var', 'let']
+                     '_rename', '_swap', 'var', 'let', '_load_dddmp']
         for m in ['apply', 'incref', 'decref', '_incref', '_decref'] + extra:
             if m in extra:
                 try:
@@ -444,6 +489,7 @@ def transliterate_c(block):
                 continue
             l = f'{m.group(1)}{m.group(2)} = {m.group(3)}'
         l = CAST_RE.sub('', l)
+        l = re.sub(r'\bsizeof\([^)]*\)', '1', l)
         l = re.sub(r'\bNULL\b', 'None', l)
         out.append(l)
     src = textwrap.dedent('\n'.join(out))
